@@ -222,10 +222,19 @@ def cases(tier, rng):
             seen.add(key)
             yield {'k': 'doc', 'd': d, 'o': o}
             yield {'k': 'spec', 'd': d, 'o': o}
+    per_policy = [mk_opts(p) for p in POLICIES]
     # (a) probes under every combination of the options
     for d in probes():
         for c in doc_cases(d, opts + [mk_opts(p) for p in EXTRA_POLICIES] + [mk_opts(kb=True, ml=5)]):
             yield c
+    # (a') blanks between a control word and its bracket argument: the call has an argument, so it is not a bare macro
+    #      and the blanks are never output (hand-written, not re-fixed: refix would recompute the post-space)
+    for post in (' ', '\n  ', '  '):
+        for tail in ([('T', 'b')], [('W', ' '), ('T', 'one')], [('F', '$', [('T', 'x')])], []):
+            item = ('M', 'item', post, [('br', [('T', 'x')])])
+            for d in ([item] + tail, [('E', 'itemize', [('absent',)], [item] + tail + [('W', '\n')])], [('T', 'a'), ('W', ' '), item] + tail):
+                for c in doc_cases(d, per_policy + [mk_opts(p) for p in EXTRA_POLICIES], fix=False):
+                    yield c
     # (b) bounded-exhaustive sequences of atoms
     atoms = spectext._atoms()
     k = 2 if quick else 3
